@@ -21,7 +21,7 @@ ASSUMPTIONS = ['R1 tolerance 1e-9 x |D0| (uncorrelated part) - absolute in that 
                'cutoffs are kept 1e-4 away from every interatomic distance',
                'the Green-function calculator is only exercised when the exact D is non-singular (lambda_min > 1e-3 |D0|): the lattice '
                'Green function of a network that does not diffuse in some direction, or that only connects a sublattice of the crystal, does not exist']
-REQUIRED_OBS = {'eval:C02:D=R1': 30, 'eval:C02:D=R2': 5, 'eval:C02:GF.D=R1': 5, 'with_vector_basis': 3, 'pinv_branch': 2,
+REQUIRED_OBS = {'eval:C02:D=R1': 30, 'eval:C02:D=R2': 5, 'eval:C02:GF.D=R1': 5, 'with_vector_basis': 3, 'pinv_branch': 2, 'pinv_branch_NV>=2': 10,
                 'multi_wyckoff': 3, 'dim2': 3}
 PER_CASE = 5
 
@@ -37,7 +37,12 @@ def run_case(case):
     rng = gen.rng_for(case['seed'], case['idx'], 2)
     sample = None
     for k in range(PER_CASE):
-        crys, spec = gen.rand_crystal(rng, nchem=int(rng.integers(1, 3)), maxatoms=7)
+        if rng.uniform() < 0.25:
+            # crystals without inversion: pseudo-inverse branch of the bias solver with several vector-basis functions
+            spec = gen.rand_noncentro_spec(rng)
+            crys = gen.make_crystal(spec)
+        else:
+            crys, spec = gen.rand_crystal(rng, nchem=int(rng.integers(1, 3)), maxatoms=7)
         chem = int(rng.integers(crys.Nchem))
         if len(crys.basis[chem]) > 6: continue
         cutoff = gen.safe_cutoff(crys, chem, rng, maxshell=4)
@@ -66,6 +71,7 @@ def run_case(case):
             contracts.tensor2_contract(mon, crys, D, 'D', psd=True, scale=scale, prefix='C02')
             mon.count('with_vector_basis', diff.NV > 0)
             mon.count('pinv_branch', diff.NV > 0 and not diff.omega_invertible)
+            mon.count('pinv_branch_NV>=2', diff.NV >= 2 and not diff.omega_invertible)
             if diff.NV > 0 and not diff.omega_invertible:
                 # pseudo-inverse branch: the same data at several absolute rate scales (each scale is a different rounding of the
                 # projected rate matrix; the reference is exactly scale-covariant)
